@@ -5,6 +5,7 @@ import ipaddress
 import json
 import re
 import multiprocessing
+from . import core as _core
 import os
 import signal
 import time
@@ -191,8 +192,7 @@ def run(ctx, items_by_logs, nproc=12):
             if part:
                 jobs.append((b.root, b.moddir, b.daemon, os.path.join(ctx.scratch, "wire-%s-%d" % (lk, k)), part,
                              os.path.join(ctx.scratch, "wire-%s-%d.ndjson" % (lk, k)), lk))
-    with multiprocessing.Pool(min(nproc, len(jobs))) as pool:
-        return pool.map(_worker, jobs)
+    return _core.pool_map(_worker, jobs, min(nproc, len(jobs)))
 
 
 def validate(ctx, res):
